@@ -26,7 +26,7 @@ def instances(tier):
                         d["NO_SUM"] = None
                     L.append(Inst("filter-%s-%s-s%x-b%d%d" % (rk, sk, sc, bx, by), "C18/filter.c", d, link=["pixman-utils.c"], unwind=16,
                                   checks=["--bounds-check", "--pointer-check"], models=("env_stubs.c", "libm_stubs.c"),
-                                  timeout=300 if tier == "quick" else 900,
+                                  timeout=900,
                                   desc={"what": "layout, header, n_params rule, in-block writes" + ("; every phase sums to 65536" if poly else " (transcendental kernel values arbitrary)")}))
     return L
 
